@@ -21,7 +21,7 @@ SRC = "src/iterative/OSSPS/OSSPSReconstruction.cxx"
 
 
 def requests():
-    return [Request(SRC, fn=["stir::OSSPSReconstruction::update_estimate"])]
+    return [Request(SRC, fn=["stir::OSSPSReconstruction::update_estimate"]), Request(SRC, fn=["stir::OSSPSReconstruction::precompute_denominator_of_conditioner_without_penalty", "stir::OSSPSReconstruction::set_up"])]
 
 
 def run(ctx):
@@ -31,7 +31,7 @@ def run(ctx):
         "division `_1 / _2` divides by the image that passed threshold_min_to_small_positive_value in this call, or by the stored "
         "denominator in the branch that excludes the first executed sub-iteration, and the stored denominator is copied from the "
         "thresholded image; (c) the additive update is subgradient*num_subsets/D*relaxation with relaxation = alpha/(1+gamma*(n div N)). "
-        "NOT decided: that D equals the stated curvature, restart equality (numerical / history)."
+        "(d) the denominator is assembled as defined: stored part = -(approximate Hessian applied to ones) accumulated into a fresh image, divisor = 2*surrogate curvature(current image) + stored part. NOT decided: the values of Hessian and curvature, restart equality (numerical / history)."
     )
     reqs = requests()
     ctx.ex.prefetch(reqs)
@@ -141,3 +141,79 @@ def run(ctx):
         ok = all(cfg.dominates(mulN[0], c) for c, k in kinds if k == "div-D") and cfg.must_pass_from_entry(rel_, lambda x: x.i in divids) is None
     ctx.ob("C08.c-update-shape", f.qn, "numerator-pipeline", ok, f.where(), "sub-gradient -> *num_subsets -> /D -> *relaxation -> image += numerator" if ok else "update pipeline is %s" % compact)
     ctx.require_count("C08.b-positive-denominator", 2)
+    # ---- d  the denominator is what the property says: D = -(approximate Hessian applied to an image of ones) + 2 * surrogate curvature
+    #         of the prior.  In update_estimate: the image that is thresholded and divided by is, with a prior, 2*curvature + stored
+    #         denominator (curvature computed by the prior for the CURRENT image into that same work image), without a prior the
+    #         stored denominator itself.
+    curv = [c for c in f.calls() if (c.callee or "").endswith("::parabolic_surrogate_curvature")]
+    okd, detd = False, "no work image / no surrogate-curvature call"
+    if WORK is not None and len(curv) == 1 and thr:
+        a = curv[0].call_args()
+        into_work = key(a[0].strip()) == WORK and key(a[1].strip()) == img
+        comb = [c for c in tr if obj(c.call_args()[0]) == WORK and obj(c.call_args()[-2]) == WORK and len(c.call_args()) == 5 and obj(c.call_args()[2]) == STORED]
+        e = lam(comb[0]) if len(comb) == 1 else None
+        two_plus = e is not None and sympy.simplify(e - (2 * P1 + P2)) == 0
+        order = len(comb) == 1 and cfg.dominates(curv[0], comb[0]) and cfg.dominates(comb[0], thr[0]) is False and cfg.must_pass_before_exit([comb[0]], lambda x: x.i == thr[0].i) is None
+        copies = [m for m in f.walk() if m.k in ("BinaryOperator", "CXXOperatorCallExpr") and m.op == "=" and key(m.c[0].strip()) == WORK and key(m.c[1].strip()) == STORED]
+
+        def prior_branch(node):
+            """True: node lies where a prior is present, False: where it is absent (nearest test of prior_is_zero())"""
+            prev = node
+            for a_ in node.ancestors():
+                if a_.k == "IfStmt" and a_.c and "prior_is_zero()" in key(a_.c[0]):
+                    cnd = a_.c[0].strip()
+                    negated = cnd.k == "UnaryOperator" and cnd.op == "!"
+                    in_then = len(a_.c) > 1 and any(x is node for x in a_.c[1].walk())
+                    return negated == in_then
+                prev = a_
+            return None
+
+        prior_guard = prior_branch(curv[0]) is True and len(comb) == 1 and prior_branch(comb[0]) is True
+        no_prior = len(copies) == 1 and prior_branch(copies[0]) is False and cfg.must_pass_before_exit([copies[0]], lambda x: x.i == thr[0].i) is None
+        okd = into_work and two_plus and order and prior_guard and no_prior
+        detd = "D = 2 * prior.parabolic_surrogate_curvature(current image) + stored denominator (prior present), = stored denominator (no prior); thresholded afterwards" if okd else "denominator is not 2*surrogate curvature + stored denominator: curvature of the current image into the work image=%s, combination `2*_1+_2`=%s (%s), order=%s, under !prior_is_zero()=%s, no-prior copy=%s" % (into_work, two_plus, e, order, prior_guard, no_prior)
+    ctx.ob("C08.d-denominator-definition", f.qn, "curvature-plus-stored", okd, f.where(), detd)
+    u2 = ctx.ex.get(reqs[1])
+    if u2 is None:
+        return
+    pre = [g for g in u2.functions if g.short == "precompute_denominator_of_conditioner_without_penalty" and g.body is not None and not g.is_dependent and g.cfg_raw]
+    sup = [g for g in u2.functions if g.short == "set_up" and g.body is not None and not g.is_dependent and g.cfg_raw]
+    if not pre or not sup:
+        ctx.fail_broken("anchor precompute_denominator_of_conditioner_without_penalty / set_up (instantiation) not found")
+        return
+    g = pre[0]
+    gcfg = CFG(g)
+    hess = [c for c in g.calls() if (c.callee or "").endswith("::add_multiplication_with_approximate_Hessian_without_penalty")]
+    ok1, det1 = False, "expected one call of add_multiplication_with_approximate_Hessian_without_penalty"
+    if len(hess) == 1:
+        a = hess[0].call_args()
+        out_is_stored = key(a[0].strip()) == STORED
+        ones_k = key(a[1].strip())  # *ONES
+        ones_root = ones_k.lstrip("*")
+        fills = [c for c in g.calls() if c.callee == "std::fill" and len(c.call_args()) == 3 and obj(c.call_args()[0]).lstrip("*") == ones_root and key(c.call_args()[1]).lstrip("*").startswith(ones_root) and key(c.call_args()[1]).endswith(".end_all()")]
+        ones = len(fills) == 1 and str(fills[0].call_args()[2].strip().get("v")) in ("1", "1.0") and gcfg.dominates(fills[0], hess[0])
+        later_writes = [m for m in g.walk() if m.i in gcfg.pos and m.i != (fills[0].i if fills else -1) and any(root_of_lvalue(e2).lstrip("*") == ones_root for e2 in written_lvalues(m)) and m.k != "VarDecl"]
+        neg = []
+        for c in g.calls():
+            if c.callee == "std::for_each" and len(c.call_args()) == 3 and obj(c.call_args()[0]) == STORED and key(c.call_args()[1]) == STORED + ".end_all()":
+                lamb = [m for m in c.call_args()[2].walk() if m.k == "LambdaExpr"] or [c.call_args()[2].strip()]
+                body = lamb[0]
+                asg = [m for m in body.walk() if m.k == "BinaryOperator" and m.op == "=" and m.c[1].strip().k == "UnaryOperator" and m.c[1].strip().op == "-" and key(m.c[1].strip().c[0].strip()) == key(m.c[0].strip())]
+                if asg:
+                    neg.append(c)
+        negated_once = len(neg) == 1 and gcfg.dominates(hess[0], neg[0]) and gcfg.must_pass_before_exit([hess[0]], lambda x: x.i == neg[0].i) is None
+        ok1 = out_is_stored and ones and negated_once
+        det1 = "stored denominator += approximate Hessian applied to an image filled with 1, then every element negated once, on every path" if ok1 else "accumulates into the stored denominator=%s, input filled with 1 before the call=%s, negated once afterwards on every path=%s" % (out_is_stored, ones, negated_once)
+    ctx.ob("C08.d-denominator-definition", g.qn, "minus-hessian-times-ones", ok1, g.where(), det1)
+    h = sup[0]
+    hcfg = CFG(h)
+    pcs = [c for c in h.calls() if (c.callee or "").endswith("::precompute_denominator_of_conditioner_without_penalty")]
+    fresh = [c for c in h.calls() if c.k == "CXXMemberCallExpr" and (c.callee or "").endswith("::reset") and key(c.c[0].strip()) == "this.precomputed_denominator_ptr" and c.call_args() and (getattr(c.call_args()[0].strip(), "callee", "") or "").endswith("::get_empty_copy")]
+    ok2 = len(pcs) == 1 and any(hcfg.dominates(fr, pcs[0]) and hcfg.paths_avoiding([hcfg.pos[fr.i]], lambda x: False, target_pred=lambda x: x.i == pcs[0].i, to_exit=False) is not None for fr in fresh)
+    if ok2:
+        # nothing writes the accumulator between the fresh copy and the precomputation
+        fr = [x for x in fresh if hcfg.dominates(x, pcs[0])][-1]
+        between = [m for m in h.walk() if m.i in hcfg.pos and m.i not in (fr.i, pcs[0].i) and any(root_of_lvalue(e2).lstrip("*") == "this.precomputed_denominator_ptr" for e2 in written_lvalues(m)) and hcfg.dominates(fr, m) and hcfg.dominates(m, pcs[0])]
+        ok2 = not between
+    ctx.ob("C08.d-denominator-definition", h.qn, "accumulator-starts-empty", ok2, h.where(), "the stored denominator is a fresh empty copy of the target when the Hessian term is accumulated into it" if ok2 else "the Hessian term is not accumulated into a fresh empty image")
+    ctx.require_count("C08.d-denominator-definition", 3)
